@@ -26,12 +26,12 @@ LEVEL_NOTE = ("Python's compile/eval of string expressions, numpy.array_equal an
               "string-expression clause is decided by differential testing only (partial).")
 TECHNIQUE = "Lean 4 proof (wrapper algebra, cache transparency) + correspondence of memo hit/miss pattern + differential oracle for string expressions"
 LEAN_MODULE = "Hg.Props.C17"
-THEOREMS = ["Hg.C17.wrappers_commute", "Hg.C17.named_twice_raises", "Hg.C17.cached_transparent", "Hg.C17.cached_idem"]
+THEOREMS = ["Hg.C17.wrappers_commute", "Hg.C17.named_twice_raises", "Hg.C17.cached_transparent", "Hg.C17.cached_transparent_partial", "Hg.C17.cached_idem"]
 CASES = {"quick": 220, "thorough": 6000}
 RULE = ("per case: all 6 wrapper orders on a lambda and on a string; a random call sequence of 4..14 calls over a pool of scalar / "
         "array / keyword arguments on a cached wrapper built in a random order; a random expression from the grammar evaluated on "
         "interleaved dict / attribute / scalar records through one wrapper object; distinct = hash of parameters")
-SHRINK_LISTS = ["calls", "records"]
+SHRINK_LISTS = ["calls", "records", "hcalls"]
 SHRINK_SPECS = []
 
 ARGS = ["s1", "s2", "s2i", "a222", "a222b", "a12", "a12same", "a2", "a22", "s2np", "kw1", "kw2", "kw2b",
@@ -64,7 +64,8 @@ def gen_params(rng, tier):
     # bare scalars have no field names: the single variable is discovered from the expression, so it must not be a known name
     names = list(rng.choice(NAMES)) if multi or not any(r[0] == "scalar" for r in recs) else ["x", "y", "z"]
     return {"order": order, "calls": calls, "expr": expr, "multi": multi, "records": recs, "name": rng.choice(["n", "myname", "q"]),
-            "names": names}
+            "names": names,
+            "bad": [0.0, 2.0], "hcalls": [rng.choice([0.0, 1.0, 2.0, 3.0, 0.0, 2.0]) for _ in range(rng.randint(3, 9))]}
 
 
 def build(p):
@@ -210,6 +211,30 @@ class C17Exec(execs.PyExec):
                 break
             toks.append(token_of(args, kwds, tokens))
         self.model_queries.append(("cachedrun", toks, misses[:len(toks)]))
+        # 2b. a function that raises for some arguments: the wrapper raises whenever the function would, however often the
+        # failing argument is repeated and whatever was cached before
+        def _h(x):
+            if x in p.get("bad", [0.0]):
+                raise ZeroDivisionError("bad argument")
+            return x * 3 - 1
+
+        fh = lambda x: _h(x)  # noqa: E731
+        for i in p["order"]:
+            fh = wrappers[i](fh)
+        for x in p.get("hcalls", []):
+            try:
+                want, wraise = _h(x), False
+            except ZeroDivisionError:
+                want, wraise = None, True
+            try:
+                got, graise = fh(x), False
+            except ZeroDivisionError:
+                got, graise = None, True
+            if wraise != graise or (not wraise and got != want):
+                msgs.append("cached wrapper of a partial function: call with %r %s, the function itself %s (calls %r, failing arguments %r)"
+                            % (x, "raised" if graise else "returned %r" % (got,), "raises" if wraise else "returns %r" % (want,),
+                               p.get("hcalls"), p.get("bad")))
+                break
         # 3. string expression against the equivalent Python function, interleaved record kinds on one wrapper
         names = p.get("names") or ["x", "y", "z"]
         template = p["expr"]
